@@ -147,7 +147,7 @@ class Expect:
         ncalls = self.items(case["items"], env)
         return env, ncalls
 
-    def items(self, items, env):
+    def items(self, items, env, depth=0):
         ncalls = 0
         for it in items:
             if it["k"] == "call":
@@ -159,10 +159,10 @@ class Expect:
                         env[a] = ("call", it["g"], args, k)
                         k += 1
             else:
-                self.with_block(it, env)
+                self.with_block(it, env, depth)
         return ncalls
 
-    def with_block(self, w, env):
+    def with_block(self, w, env, depth=0):
         mods = w["mods"]
         dag = sum(1 for m in mods if mod_kind(m) == "dagger") % 2
         exps = tuple(arg_term(m[1], env) for m in mods if m[0] == "power")
@@ -173,10 +173,11 @@ class Expect:
         for m in ctrls:
             cin.append(("arr", tuple(env[q] for q in m[1])) if m[0] == "control" else env[m[1]])
         benv = dict(env)
+        rec = {"chain": chain, "mods": mods, "w": w, "depth": depth}
+        ncalls = self.items(w["body"], benv, depth + 1)
+        # completion order: blocks nested in the body come first, so the innermost mismatch is reported
         idx = len(self.blocks)
-        rec = {"chain": chain, "mods": mods, "w": w}
         self.blocks.append(rec)
-        ncalls = self.items(w["body"], benv)
         changed = [v for v in PARAMS if is_linear(v) and benv[v] != env[v]]
         ccanon, rank = canon_controls(cin)
         key = ("blk", chain, ccanon, frozenset((env[v], benv[v]) for v in changed))
@@ -395,7 +396,11 @@ class HugrTerms:
         pairs = frozenset((a, b) for a, b in zip(lin_in, body_out) if a != b)
         untouched = [a for a, b in zip(lin_in, body_out) if a == b]
         chain = (dag % 2, tuple(exps), tuple(arities))
-        rec = {"f": f, "ci": ci, "k": fk, "dag_ops": dag, "order": order, "chain": chain, "controls": ccanon,
+        depth, g = 0, self.enclosing_func(ci)
+        while g in self.callsite:  # number of with-block functions around this call
+            depth += 1
+            g = self.enclosing_func(self.callsite[g][0])
+        rec = {"f": f, "ci": ci, "k": fk, "depth": depth, "dag_ops": dag, "order": order, "chain": chain, "controls": ccanon,
                "rank": rank, "body_out": body_out, "untouched": untouched,
                "key": ("blk", chain, ccanon, pairs), "lin_inputs": frozenset(cin + lin_in),
                "ncalls": sum(1 for d in self.descendants(f) if isinstance(h[d].op, self.ops.Call))}
@@ -492,10 +497,11 @@ def compare(case, pkg):
         if nwf != len(withs) or "main" not in ht.funcs or len(ht.funcs) != nwf + 1:
             return [("funcdefn.count", f"{len(withs)} with statements but FuncDefns {sorted(ht.funcs)}")]
         recs = [ht.block(ci) for ci, _, _ in ht.callsite.values()]
-        # match every with statement (source order: an outer block before the blocks inside it)
+        # match every with statement (earlier before later, inner before the block around it)
         unused = list(recs)
         for b in exp.blocks:
-            cands = [r for r in unused if r["lin_inputs"] == b["lin_inputs"]]
+            # blocks with equal inputs are nested in each other: the nesting depth tells them apart
+            cands = [r for r in unused if r["lin_inputs"] == b["lin_inputs"] and r["depth"] == b["depth"]]
             if not cands:  # fall back to the controls alone, then to anything, to name what is off
                 cands = [r for r in unused if r["controls"] == b["controls"]] or \
                         [r for r in unused if r["chain"] == b["chain"]]
@@ -563,8 +569,9 @@ def first_wrong_role(exp, b, ht, r):
     return "block.inputs"
 
 
-def evaluate(case):
-    """-> (findings, info)"""
+def evaluate(case, waive=frozenset()):
+    """-> (findings, info).  `waive`: finding classes whose failing predicate (here: hugr validate on a
+    program of class H_CTRL) is not reported; every other predicate is still checked on the program."""
     from vlib import runner
 
     _enable()
@@ -584,12 +591,16 @@ def evaluate(case):
             return [("rejected." + out.title, "the program is within the accepted language (controls distinct and "
                                               "unused in the body); compiler says:\n" + out.message[-1500:] + prog)], info
         v = runner.validate_pkg(pkg)
+        finds = []
         if v.kind != "ok":
             info["got"] = "invalid"
             msg = v.message.split("Stack backtrace")[0].strip()
             cls = H_CTRL if has_class(case, H_CTRL) and "Cannot connect array(" in msg else "invalid_hugr.other"
-            return [(cls, msg[:900] + prog)], info
-        finds = compare(case, pkg)
+            if cls in waive:
+                info["waived"] = cls
+            else:
+                finds.append((cls, msg[:900]))
+        finds += compare(case, pkg)
         return [(b, d + prog) for b, d in finds], info
     finally:
         lm.dispose()
@@ -757,12 +768,10 @@ def describe(case):
 
 
 def run_case(ctx, case, active):
-    for key in active:
-        if has_class(case, key):
-            ctx.exclude(EXCLUDE[key])
-            return
     try:
-        finds, info = evaluate(case)
+        finds, info = evaluate(case, waive=active)
+        if info.get("waived"):
+            ctx.exclude(EXCLUDE[info["waived"]] + " (hugr validate verdict waived, structure still checked)")
     except harness.HarnessError as e:
         ctx.harness_error(str(e))
         return
@@ -825,7 +834,7 @@ SPEC = harness.Spec(
     ],
     shards={"quick": 16, "thorough": 16},
     budget_s={"quick": 90, "thorough": 900},
-    params={"quick": {"n": 200}, "thorough": {"n": 4000}},
+    params={"quick": {"n": 300}, "thorough": {"n": 8000}},
     min_nontrivial=300,
 )
 
